@@ -55,6 +55,49 @@ pub fn entry_info<E: Entry>(e: &E) -> EntryInfo {
     }
 }
 
+/// Run the same script on the handle and on a Cursor over `data`; first difference, if any
+fn handle_session_mismatch(f: &mut Box<dyn rivia::prelude::ReadSeek>, data: &[u8]) -> Option<String> {
+    use std::io::{Cursor, Read, Seek, SeekFrom};
+    let mut c = Cursor::new(data.to_vec());
+    fn read_n<R: Read + ?Sized>(r: &mut R, n: usize) -> Result<Vec<u8>, ()> {
+        let mut b = vec![0u8; n];
+        let mut got = 0;
+        while got < n {
+            match r.read(&mut b[got..]) {
+                Ok(0) => break,
+                Ok(k) => got += k,
+                Err(_) => return Err(()),
+            }
+        }
+        b.truncate(got);
+        Ok(b)
+    }
+    let steps: [(&str, Option<SeekFrom>, usize); 9] = [
+        ("start(0)", Some(SeekFrom::Start(0)), 2),
+        ("end(-3)", Some(SeekFrom::End(-3)), 1),
+        ("current(-1)", Some(SeekFrom::Current(-1)), 2),
+        ("end(0)", Some(SeekFrom::End(0)), 1),
+        ("current(2)", Some(SeekFrom::Current(2)), 1),
+        ("current(-1)", Some(SeekFrom::Current(-1)), 1),
+        ("end(-1)", Some(SeekFrom::End(-1)), 4),
+        ("start(1)", Some(SeekFrom::Start(1)), 0),
+        ("current(0)", Some(SeekFrom::Current(0)), 3),
+    ];
+    for (name, sk, n) in steps {
+        if let Some(sk) = sk {
+            let (a, b) = (f.seek(sk).map_err(|_| ()), c.seek(sk).map_err(|_| ()));
+            if a != b {
+                return Some(format!("seek {}: handle {:?} cursor {:?}", name, a, b));
+            }
+        }
+        let (a, b) = (read_n(f.as_mut(), n), read_n(&mut c, n));
+        if a != b {
+            return Some(format!("read {} after seek {}: handle {:?} cursor {:?}", n, name, a, b));
+        }
+    }
+    None
+}
+
 fn handle_write(h: RvResult<Box<dyn Write>>, chunks: &[Vec<u8>], flushes: &[bool]) -> Out {
     match h {
         Err(e) => Out::Err(errkind(&e)),
@@ -97,11 +140,16 @@ fn apply_inner<V: VirtualFileSystem>(v: &V, op: &Op) -> Out {
             Ok(s) => Out::Lines(s),
             Err(e) => Out::Err(errkind(&e)),
         },
+        // a read-handle session: the whole content first (the call's result), then a fixed script of partial
+        // reads and seeks from every origin whose trace must equal std::io::Cursor's over the same bytes
         Read(p) => match v.read(p) {
             Ok(mut f) => {
                 let mut buf = vec![];
                 match f.read_to_end(&mut buf) {
-                    Ok(_) => Out::Bytes(buf),
+                    Ok(_) => match handle_session_mismatch(&mut f, &buf) {
+                        None => Out::Bytes(buf),
+                        Some(d) => Out::Err(format!("read-handle-session-differs-from-cursor: {}", d)),
+                    },
                     Err(e) => Out::Err(format!("Io::{:?}", e.kind())),
                 }
             },
@@ -195,6 +243,17 @@ fn apply_inner<V: VirtualFileSystem>(v: &V, op: &Op) -> Out {
                     CopyMode::All(m) => c.chmod_all(m),
                     CopyMode::Dirs(m) => c.chmod_dirs(m),
                     CopyMode::Files(m) => c.chmod_files(m),
+                    CopyMode::Two(k1, m1, k2, m2) => {
+                        let mut c = c;
+                        for (k, m) in [(k1, m1), (k2, m2)] {
+                            c = match k % 3 {
+                                0 => c.chmod_all(m),
+                                1 => c.chmod_dirs(m),
+                                _ => c.chmod_files(m),
+                            };
+                        }
+                        c
+                    },
                 };
                 c = c.follow(o.follow);
                 r_unit(c.exec())
@@ -211,6 +270,67 @@ fn apply_inner<V: VirtualFileSystem>(v: &V, op: &Op) -> Out {
         Readlink(p) => r_path(v.readlink(p)),
         ReadlinkAbs(p) => r_path(v.readlink_abs(p)),
         HOpen(..) | HWrite(..) | HFlush(..) | HDrop(..) => Out::Bool(false), // need a handle table: apply_h
+        Late(inner, cwd2) => {
+            // build the builder, change the cwd, then exec
+            let mid = || v.set_cwd(cwd2).err().map(|e| Out::Err(format!("set_cwd-between-build-and-exec:{}", errkind(&e))));
+            match &**inner {
+                ChmodB(p, o) => match v.chmod_b(p) {
+                    Ok(mut b) => {
+                        b = match &o.sel {
+                            ChmodSel::All(m) => b.all(*m),
+                            ChmodSel::Dirs(m) => b.dirs(*m),
+                            ChmodSel::Files(m) => b.files(*m),
+                            ChmodSel::Sym(s) => b.sym(s),
+                        };
+                        b = if o.recursive { b.recurse() } else { b.no_recurse() };
+                        if o.follow {
+                            b = b.follow();
+                        }
+                        match mid() {
+                            Some(e) => e,
+                            None => r_unit(b.exec()),
+                        }
+                    },
+                    Err(e) => Out::Err(format!("build:{}", errkind(&e))),
+                },
+                ChownB(p, o) => match v.chown_b(p) {
+                    Ok(mut b) => {
+                        if let Some(u) = o.uid {
+                            b = b.uid(u);
+                        }
+                        if let Some(g) = o.gid {
+                            b = b.gid(g);
+                        }
+                        b = b.recurse(o.recursive);
+                        if o.follow {
+                            b = b.follow();
+                        }
+                        match mid() {
+                            Some(e) => e,
+                            None => r_unit(b.exec()),
+                        }
+                    },
+                    Err(e) => Out::Err(format!("build:{}", errkind(&e))),
+                },
+                CopyB(a, b, o) => match v.copy_b(a, b) {
+                    Ok(mut c) => {
+                        c = match o.mode.effective() {
+                            CopyMode::All(m) => c.chmod_all(m),
+                            CopyMode::Dirs(m) => c.chmod_dirs(m),
+                            CopyMode::Files(m) => c.chmod_files(m),
+                            _ => c,
+                        };
+                        c = c.follow(o.follow);
+                        match mid() {
+                            Some(e) => e,
+                            None => r_unit(c.exec()),
+                        }
+                    },
+                    Err(e) => Out::Err(format!("build:{}", errkind(&e))),
+                },
+                _ => Out::Bool(false),
+            }
+        },
     }
 }
 
